@@ -32,6 +32,8 @@ ST = {
 }
 for f in sorted(os.listdir(R + "/lean/NeoModel/Proofs/GoFuncs")):
     pid = f[:-5]
+    if not re.fullmatch(r"C\d\d", pid):
+        continue  # engineers' own tie files are registered by them
     src = open(R + "/lean/NeoModel/Proofs/GoFuncs/" + f).read()
     src = re.sub(r"/-.*?-/", "", src, flags=re.S)
     names = re.findall(r"^theorem\s+([\w']+)", src, flags=re.M)
